@@ -8,6 +8,7 @@ from gen import stepgen, proggen
 PROPERTY = "C06"
 PROPS_VO = "Props/C06"
 AXIOMS_OK = []
+KNOWN_ARGS = "pair"     # the known-class suite looks at (case observed)
 KNOWN_SUITE = {"run": "loops.known"}
 COMBINATORS = ["EXEC.IF", "CODE.IF", "EXEC.K", "EXEC.S", "EXEC.Y", "CODE.DO", "CODE.DO*", "CODE.QUOTE", "EXEC.DUP", "EXEC.LOOP", "CODE.LOOP",
                "INTVECTOR.LOOP", "INDEX.DEFINE", "INDEX.INCREASE", "INDEX.CURRENT", "INDEX.DESTINATION", "INDEX.POP", "CODE.POP", "EXEC.POP"]
